@@ -287,24 +287,27 @@ func init() {
 			runMixedCases(c, budget(c.Tier, 150, 15000), defaultProfile, []string{"parse", "iniparse", "iniwrite"}, 3, func(cr *CaseResult) { oracleNoPanic(c, cr) })
 		}}
 	props["C14"] = propRun{
-		rule: "(a) noisy / faulty / arbitrary-byte INI texts (incl. lines around the 4096-byte buffer) on generated declarations; (b) pairs: the same entries with and without blank lines, comments, surrounding blanks, CRLF; (c) one syntactically faulty line inserted at a known physical line; (d) long-line pairs, ignore-unknown pairs; (e) an unknown section - with entries, or with nothing under its header: last line, only comments below, the next header at once, first thing in the file - is ErrUnknownGroup, and under IgnoreUnknown changes nothing; distinct per text",
+		rule: "(a) noisy / faulty / arbitrary-byte INI texts (incl. lines around the 4096-byte buffer) on generated declarations; (b) pairs: the same entries with and without blank lines, comments, surrounding blanks, CRLF; (c) one syntactically faulty line inserted at a known physical line; (d) long-line pairs, ignore-unknown pairs; (e) an unknown section - with entries, or with nothing under its header: last line, only comments below, the next header at once, first thing in the file - is ErrUnknownGroup, and under IgnoreUnknown changes nothing; (f) late-section stage: ONE IniParser reads a file naming a section nothing answers to yet, the program declares that group / command, the same IniParser reads the file again: the section is known now, its entries are applied, a faulty line in it carries its number; distinct per text",
 		run: func(c *Ctx) {
 			checkC14(c, budget(c.Tier, 720, 72000))
+			checkIniLateSection(c, budget(c.Tier, 150, 5000), "C14")
 		}}
 }
 
 func init() {
 	props["C13"] = propRun{
-		rule: "pairs over one generated declaration: an INI text with 1-3 entries naming one option (by ini-name in either case, field name, namespaced long name or short name, under the global section or a group section in any letter case, normal or as-defaults mode) read into one fresh parser, and the corresponding --long=value flags parsed by another; the option must end with the same value; the expected target of the name is computed independently from the documented priority; distinct per (text, argv); plus mixed ini operations for the model tie",
+		rule: "pairs over one generated declaration: an INI text with 1-3 entries naming one option (by ini-name in either case, field name, namespaced long name or short name, under the global section or a group section in any letter case, normal or as-defaults mode) read into one fresh parser, and the corresponding --long=value flags parsed by another; the option must end with the same value; the expected target of the name is computed independently from the documented priority; distinct per (text, argv); late-section stage (one IniParser, a section declared between two reads of the same file); plus mixed ini operations for the model tie",
 		run: func(c *Ctx) {
 			checkC13(c, budget(c.Tier, 600, 60000))
+			checkIniLateSection(c, budget(c.Tier, 150, 5000), "C13")
 			runMixedCases(c, budget(c.Tier, 150, 15000), defaultProfile, []string{"iniparse", "parse"}, 3, func(cr *CaseResult) { oracleNoPanic(c, cr) })
 		}}
 	props["C05"] = propRun{
-		rule: "declarations of 2-5 options (string, int, []string, []int), each independently with/without a program-stored value, default tag(s), env tag (variable set or unset, env-delim, optional env-namespace and delimiter), INI entries and command-line occurrences, every source carrying a distinct recognisable value; three orders (INI then CLI; as-defaults INI then CLI; CLI then as-defaults INI); expected final value computed from the ranking; distinct per case text; plus mixed operations for the model tie; indirect-collections stage (library only): *[]string, **[]string, *[]int, *map[string]int and a struct whose own conversion accumulates, with any subset of stored value / default tags / environment / occurrences: exactly the elements of the highest-ranked source",
+		rule: "declarations of 2-5 options (string, int, []string, []int), each independently with/without a program-stored value, default tag(s), env tag (variable set or unset, env-delim, optional env-namespace and delimiter), INI entries and command-line occurrences, every source carrying a distinct recognisable value; three orders (INI then CLI; as-defaults INI then CLI; CLI then as-defaults INI); expected final value computed from the ranking; distinct per case text; plus mixed operations for the model tie; indirect-collections stage (library only): *[]string, **[]string, *[]int, *map[string]int and a struct whose own conversion accumulates, with any subset of stored value / default tags / environment / occurrences: exactly the elements of the highest-ranked source; late-below stage: a group declared on a subcommand after the parser was used: its options get defaults / environment and occurrences replace what was stored, like any other",
 		run: func(c *Ctx) {
 			checkC05(c, budget(c.Tier, 600, 60000))
 			checkC05Exotic(c, budget(c.Tier, 400, 20000))
+			checkC05LateBelow(c, budget(c.Tier, 200, 8000))
 			p := defaultProfile
 			p.Env = 0.4
 			p.Defaults = 0.4
